@@ -1025,6 +1025,14 @@ func c15R8(p *Prog, r *Report, fns []*ssa.Function) {
 					continue
 				}
 				sub, ok := a.v.(*ssa.BinOp)
+				// (stride - length%stride) % stride: the remainder of the padding itself, zero for a whole number of strides
+				if ok && sub.Op == token.REM {
+					if in, isIn := stripConv(sub.X).(*ssa.BinOp); isIn && in.Op == token.SUB && sameValue(in.X, sub.Y) {
+						if rm, isRm := stripConv(in.Y).(*ssa.BinOp); isRm && rm.Op == token.REM && sameValue(rm.Y, sub.Y) {
+							continue
+						}
+					}
+				}
 				if !ok || sub.Op != token.SUB {
 					unk = "the amount skipped is not of the form stride - length%stride"
 					continue
@@ -1169,3 +1177,14 @@ func fnPkgPathOfGlobal(g *ssa.Global) string {
 
 // ctrlSelf: no extra controls (placeholder for symmetry with controllingIfs).
 func ctrlSelf(b *ssa.BasicBlock) []ctrl { return nil }
+
+// sameValue: the same SSA value up to conversions (parameters, constants of equal value).
+func sameValue(a, b ssa.Value) bool {
+	a, b = stripConv(a), stripConv(b)
+	if a == b {
+		return true
+	}
+	ka, oka := constInt(a)
+	kb, okb := constInt(b)
+	return oka && okb && ka == kb
+}
